@@ -11,6 +11,7 @@ open Casket.Lifecycle
 
 def parseSrv (s : String) : Option Srv := do
   let cs := s.toList
+  let (cs, se) := if cs.getLast? == some '~' then (cs.dropLast, true) else (cs, false)
   let (cs, lf) := if cs.getLast? == some '!' then (cs.dropLast, true) else (cs, false)
   match cs with
   | k :: ds =>
@@ -21,7 +22,7 @@ def parseSrv (s : String) : Option Srv := do
       | _ => none)
     if ds.isEmpty then none else
     let a ← (String.ofList ds).toNat?
-    pure { kind := kind, addr := a, listenFail := lf }
+    pure { kind := kind, addr := a, listenFail := lf, stopErr := se }
   | [] => none
 
 def parseStage : String → Option Stage
@@ -38,7 +39,7 @@ def parseCfg (s : String) : Option Cfg :=
   | [sv, st, fl] => do
     let servers ← if sv = "" then some [] else (sv.splitOn ",").mapM parseSrv
     let stage ← parseStage st
-    if fl.toList.all (fun c => c == 'r' || c == 's') then
+    if fl.toList.all (fun c => c == 'r' || c == 's' || c == 'w') then
       pure { servers := servers, fail := stage, restartErr := fl.toList.contains 'r', shutdownErr := fl.toList.contains 's' }
     else none
   | _ => none
@@ -118,12 +119,68 @@ def traceJudge (f : List String) (out : String) : String :=
   match f.mapM parseOp with
   | none => if out = "bad-case" then "ok" else "bad:malformed-case-accepted:" ++ out
   | some ops =>
+    if (out.splitOn "|").any (fun seg => seg.startsWith "hang;") then "bad:stop-never-returns:casket.Stop() did not return" else
     match (out.splitOn "|").mapM parseSeg with
     | none => "bad:unparsable:" ++ out
     | some segs => Casket.LifecycleSpec.verdict ops segs
 
+
+/-! c16.signal  op op …  !<signals>      (real signals to a child process)
+      out = <result of every op>;<events after READY>;exit=<code> -/
+
+def parseSig : String → Option Sig
+  | "TERM" => some .term | "INT" => some .int | "QUIT" => some .quit | "HUP" => some .hup
+  | _ => none
+
+def parseSignalCase (f : List String) : Option (List Op × List Sig) :=
+  match f.reverse with
+  | last :: revOps =>
+    if !last.startsWith "!" then none else do
+    let sigs ← ((last.drop 1).toString.splitOn ",").mapM parseSig
+    let ops ← revOps.reverse.mapM parseOp
+    if ops.isEmpty || (deciding sigs).isNone then none else
+    if ops.all (fun o => match o with | .start _ => true | .restart _ => true | _ => false) then some (ops, sigs) else none
+  | [] => none
+
+/-- a burst with both SIGINT and SIGTERM: the two handlers race for the exit once the callbacks are done, so the harness does
+not report the Stop events of such a burst; what remains to be judged is what SIGINT alone requires: the callbacks, once -/
+def overlapping (sigs : List Sig) : Bool := sigs.contains .int && sigs.contains .term
+
+def signalModel (f : List String) : String :=
+  match parseSignalCase f with
+  | none => "bad-case"
+  | some (ops, sigs) =>
+    let s := stateAfter State.init ops
+    let r := if overlapping sigs then sigRun s [.int] else sigRun s sigs
+    let res := ",".intercalate ((run ops).map fun x => showRes x.1.res)
+    let ex := match r.2 with | some n => toString n | none => "timeout"
+    s!"{res};{",".intercalate (r.1.map showEvent)};exit={ex}"
+
+/-- the instances alive after the setup operations, from the OBSERVED results -/
+def liveAfter (led : Casket.LifecycleSpec.Ledger) : List Op → List Res → Casket.LifecycleSpec.Ledger
+  | op :: ops, r :: rs => liveAfter (Casket.LifecycleSpec.advance led op ⟨r, []⟩) ops rs
+  | _, _ => led
+
+def signalJudge (f : List String) (out : String) : String :=
+  match parseSignalCase f with
+  | none => if out = "bad-case" then "ok" else "bad:malformed-case-accepted:" ++ out
+  | some (ops, sigs) =>
+    match out.splitOn ";" with
+    | [rs, es, ex] =>
+      match (if rs = "" then some [] else (rs.splitOn ",").mapM parseRes),
+            (if es = "" then some [] else (es.splitOn ",").mapM parseEvent) with
+      | some results, some events =>
+        if results.length != ops.length then "bad:length:results" else
+        let led := liveAfter Casket.LifecycleSpec.Ledger.init ops results
+        match Casket.LifecycleSpec.signalPathLaw led.live (if overlapping sigs then [.int] else sigs) events (ex != "exit=timeout") with
+        | none => "ok"
+        | some c => s!"bad:{c}:signal path"
+      | _, _ => "bad:unparsable:" ++ out
+    | _ => "bad:unparsable:" ++ out
+
 def streams : List Driver.Stream := [
-  { name := "c16.trace", model := traceModel, judge := traceJudge }
+  { name := "c16.trace", model := traceModel, judge := traceJudge },
+  { name := "c16.signal", model := signalModel, judge := signalJudge }
 ]
 
 end Driver.C16
